@@ -55,12 +55,15 @@ def run(fx, R, tier):
     try:
         check_window(fx, R, fi)
         cst = ctor_state(fx, R)
-        check_update(fx, R, fu, ft)
-        check_timeout(fx, R, ft, cst)
-        check_wiring(fx, R)
-        check_classification(fx, R)
     except sym.Unsupported as u:
-        R.undecided('M2', 'RateMonitoring', 'symbolic reader: %s' % u)
+        R.undecided('M1', 'RateMonitoring', 'symbolic reader: %s' % u)
+        cst = None
+    for (rule_, fn_) in (('M2', lambda: check_update(fx, R, fu, ft)), ('M3', lambda: check_timeout(fx, R, ft, cst)), ('M6', lambda: check_history(fx, R, fu)),
+                         ('M4', lambda: check_wiring(fx, R)), ('M5', lambda: check_classification(fx, R))):
+        try:
+            fn_()
+        except sym.Unsupported as u:
+            R.undecided(rule_, 'RateMonitoring', 'symbolic reader: %s' % u)
 
 
 def check_window(fx, R, fi):
@@ -176,6 +179,78 @@ def check_update(fx, R, fu, ft):
     sg = sym.Reader(fx).run(fg)
     R.form(len(sg) == 1 and isinstance(sg[0].ret, sp.Symbol) and sg[0].ret.name == 'this.rate_', 'M2', 'RateMonitoring::getRate', 'getRate returns %s' % [s.ret for s in sg],
             'returns the stored rate', fx.rel(fg['loc']), 'E-STATE')
+
+
+def check_history(fx, R, fu):
+    """M6: bounded history from the constructed object.  The default constructor is read, the window is set to W (4, 20 and 64: both clamps and a
+    value between), the period store starts with its constructed content (an empty queue / a zeroed fixed array), and update() is read W+6 times in
+    a row with stamps t_k = p_1 + ... + p_k (p_i symbolic positive nanoseconds).  After stamp k the stored rate must be 0 for k <= W and
+    1e9 * W / (p_{k-W+1} + ... + p_k) afterwards.  Whatever the store is (queue, ring buffer, ...), its indexes are concrete here."""
+    import re
+    ctors = [f for f in fx.functions.values() if f.get('ctor') and f.get('cls') == 'romea::core::RateMonitoring' and not f.get('copyctor') and not f['params']]
+    rec = fx.records.get('romea::core::RateMonitoring') or {}
+    if len(ctors) != 1:
+        R.undecided('M6', 'RateMonitoring:history', 'default constructor not found')
+        return
+    ftypes = {fl_['name']: fl_['t'].get('s', '') for fl_ in rec.get('fields', [])}
+    for W in (4, 20, 64):
+        inst = 'RateMonitoring:history(W=%d)' % W
+        rd = sym.Reader(fx)
+        try:
+            sts = rd.run(ctors[0])
+            if len(sts) != 1:
+                R.undecided('M6', inst, 'constructor forks')
+                continue
+            st = sts[0]
+            st.fields[fld('windowSize_')] = sp.Integer(W)
+            for k_, v_ in list(st.fields.items()):
+                if isinstance(v_, sym.Opaque) and re.fullmatch(r'std::chrono::duration<[^{}()]*>(::zero\(\)|\{\})', v_.desc.strip()):
+                    st.fields[k_] = sp.Integer(0)          # a zero / value-initialised duration is 0 ns
+            for name, ts in ftypes.items():
+                ts = ts.replace('const ', '')
+                if ts.startswith(sym.CONTAINER_TYPES):
+                    st.fields[fld(name)] = sym.Seq('this.' + name, [])
+                mm = re.match(r'std::array<[^,]+, (\d+)>', ts)
+                if mm:
+                    st.fields[fld(name)] = sym.Seq('this.' + name, [sp.Integer(0)] * int(mm.group(1)), fixed=True)
+            ps = [sp.Symbol('p%d' % i, integer=True, positive=True) for i in range(1, W + 7)]
+            bad = None
+            for k in range(1, W + 7):
+                t_k = sum(ps[:k])
+                nxt = rd.run(fu, args=[t_k], state=st)
+                nxt = [x for x in nxt if all(c[2] or 'windowSize_ != 0' not in c[0] for c in x.cond)]
+                if len(nxt) != 1:
+                    R.undecided('M6', inst, 'update() forks on stamp %d: %s' % (k, [[c[0] for c in x.cond][-2:] for x in nxt][:3]))
+                    bad = 'fork'
+                    break
+                st = nxt[0]
+                st.cond = []
+                rate = st.fields.get(fld('rate_'))
+                ret = st.ret
+                want = sp.Integer(0) if k <= W else sp.Integer(10 ** 9) * W / sum(ps[k - W:k])
+                for (what, got) in (('stored rate', rate), ('returned rate', ret)):
+                    if not isinstance(got, sp.Basic):
+                        R.undecided('M6', inst, '%s after stamp %d not readable' % (what, k))
+                        bad = 'unreadable'
+                        break
+                    num_, _ = sp.fraction(sp.together(got - want))
+                    if sp.expand(num_) != 0:
+                        v = alg.decide_zero(got - want, domain=lambda s_: (10 ** 8, 10 ** 9) if s_.name.startswith('p') else None)
+                        if v[0] == 'nonzero':
+                            R.violated('M6', 'RateMonitoring:history', 'with window W = %d, after %d stamps (periods p1..p%d) the %s is %s; the statement requires %s (%s)' % (
+                                W, k, k, what, str(got)[:160], str(want)[:120], '0 until W+1 stamps have been seen' if k <= W else 'W over the time spanned by the last W periods'),
+                                fx.rel(fu['loc']), 'E-ALG')
+                            bad = 'violated'
+                        else:
+                            R.undecided('M6', inst, '%s after stamp %d differs in form from the required value: %s' % (what, k, v[1]))
+                            bad = 'undecided'
+                        break
+                if bad:
+                    break
+            if not bad:
+                R.holds('M6', inst, 'rate 0 for the first %d stamps, then 1e9*W/(last W periods) for stamps %d..%d, from the constructed object' % (W, W + 1, W + 6), fx.rel(fu['loc']), 'E-ALG')
+        except sym.Unsupported as u:
+            R.undecided('M6', inst, 'not interpretable: %s' % u)
 
 
 def writers_of_rate(fx, exclude):
